@@ -244,6 +244,11 @@ def analyse_serial(model, fv, value):
             filters.append(norm_filter(Rep().visit(copy.deepcopy(t)), res_name))
         else:
             filters.append(("item:" + U(t)) if res_name is None else norm_filter(t, res_name))
+    if call is None and isinstance(elt, ast.Name) and elt.id == item:
+        # [x for x in ITER if T(x) …]: the callee runs in a filter, the *item* is collected
+        inner_calls = [c_ for t in ifs for c_ in ast.walk(t) if isinstance(c_, ast.Call) and item in names_in(c_) and not (isinstance(c_.func, ast.Name) and c_.func.id in ("isinstance", "len", "bool"))]
+        if inner_calls:
+            return ("collects-item", inner_calls[0], it)
     if call is None:
         if isinstance(elt, ast.Call):
             call = elt
@@ -591,7 +596,20 @@ def check_split(ctx: Ctx, fi, ifnode):
         if gen == "violated":
             return
         ser = gen
+    if ser is not None and ser[0] == "collects-item":
+        ctx.violate("PARMAP", site + ":same-callee", (fi, ser[1]), f"the serial branch evaluates `{U(ser[1])[:60]}` only as a test and collects the *items* themselves (relying on in-place modification), "
+                    "while the parallel branch collects the objects the workers return: items that the callee converts or copies (e.g. SphericalDroplet candidates, which refine_droplet turns into new "
+                    "DiffuseDroplets) come back unrefined serially and refined in parallel")
+        return
     if ser is None:
+        # the callee applied to every item only for its side effect, the *item* being collected instead of the returned object?
+        tshort = pspec.target.split(".")[-1]
+        discarded = [x for st_ in serial_body for x in ast.walk(st_) if isinstance(x, ast.Expr) and isinstance(x.value, ast.Call) and (fv.callee(x.value) or U(x.value.func)).split(".")[-1] == tshort]
+        if discarded:
+            ctx.violate("PARMAP", site + ":same-callee", (fi, discarded[0]), f"the serial branch calls `{U(discarded[0].value)[:60]}` and throws its result away (it collects the items, relying on in-place modification), "
+                        "while the parallel branch collects the objects the workers return: items that the callee converts or copies (e.g. SphericalDroplet candidates) come back unrefined serially "
+                        "and refined in parallel")
+            return
         ctx.undecided("PARMAP", site + ":same-callee", (fi, sassign), f"serial branch not recognised as applying the callee per item: {U(svalue)[:100]}")
         return
     sspec, siter, sfilters = ser
@@ -922,6 +940,10 @@ def check(ctx: Ctx):
             iteronce.check_function(ctx, fi)
     check_pure(ctx)
     check_fixture(ctx)
+    from ..rules import purity as _pur
+
+    _pur.check_mutable_defaults(ctx, ("droplets.image_analysis", "droplets.emulsions", "droplets.droplets", "droplets.droplet_tracks", "droplets.trackers"))
+    ctx.expect("MUTDEFAULT", 5)
     ctx.expect("PARMAP", 16)
     ctx.expect("EFFECT", 3)
     ctx.expect("SHARED", 2)
